@@ -237,6 +237,24 @@ class Gen:
         self.bump('anchored_sub', len(hits))
         return ''.join(out)
 
+    def closure_contract(self, text, spec, where):
+        """R15: `callee(|p| EXPR)` -> `callee(|p: T| -> (verif_ret: R) ensures verif_ret == (EXPR) { EXPR })`.
+        The closure's postcondition is derived mechanically from its own (single-expression) body."""
+        callee, pty, rty = spec[0], spec[1], spec[2]
+        mask = rsx.code_mask(text)
+        hits = [m for m in re.finditer(r'\b' + re.escape(callee) + r'\s*\(\s*\|\s*(\w+)\s*\|', text) if mask[m.start()]]
+        if len(hits) != 1:
+            raise ExtractError('closure argument of %s: expected 1 call, found %d in %s' % (callee, len(hits), where))
+        m = hits[0]
+        op = text.index('(', m.start())
+        cl = rsx.match_close(text, mask, op)
+        body = text[m.end():cl].strip()
+        if body.startswith('{') or ';' in body:
+            raise ExtractError('closure argument of %s is not a single expression in %s' % (callee, where))
+        rep = '%s(|%s: %s| -> (verif_ret: %s) ensures verif_ret == (%s) { %s })' % (callee, m.group(1), pty, rty, body, body)
+        self.bump('R15.closure_contract')
+        return text[:m.start()] + rep + text[cl + 1:]
+
     def name_return(self, sig, ret):
         mask = rsx.code_mask(sig)
         depth = 0
@@ -323,6 +341,7 @@ class Gen:
         exits = []
         dispatch = None
         fn_attrs = []
+        closures = []
         i = 0
         while i < len(block):
             ln = block[i]
@@ -350,6 +369,8 @@ class Gen:
                 dispatch = s[len('//@dispatch'):].strip()
             elif s.startswith('//@attr'):
                 fn_attrs.append(s[len('//@attr'):].strip())
+            elif s.startswith('//@closure'):
+                closures.append(s[len('//@closure'):].strip().split())
             elif s.startswith('//@'):
                 raise ExtractError('unknown directive inside //@fn: %s' % s)
             else:
@@ -404,6 +425,8 @@ class Gen:
             rep = 'match %s {\n%s\n        }' % (m.group(1), '\n'.join(arms))
             body2 = body2[:m.start()] + rep + body2[m.end():]
             self.bump('R9.dispatch_table')
+        for cl in closures:
+            body2 = self.closure_contract(body2, cl, where)
         for anchor, repl, many in subs:
             body2 = self.apply_sub(body2, anchor, repl, many, where)
         for code, expr in exits:
